@@ -449,6 +449,30 @@ func (c *Ctx) nativeMethod(iv IfaceV, name string) (func(c *Ctx, iv IfaceV, args
 		switch name {
 		case "String", "Name":
 			return func(c *Ctx, iv IfaceV, args []Value) Value { return x.Name }, true
+		case "Kind", "Size":
+			known := x.Kind
+			if name == "Size" {
+				known = x.Size
+			}
+			if known >= 0 {
+				return func(c *Ctx, iv IfaceV, args []Value) Value { return c.St.BVC(64, uint64(known)) }, true
+			}
+			if x.Sym != nil {
+				// a symbolic element type: the value is a function of its index in the dtype universe
+				return func(c *Ctx, iv IfaceV, args []Value) Value {
+					val := func(d tensor.Dtype) uint64 {
+						if name == "Size" {
+							return uint64(d.Size())
+						}
+						return uint64(d.Kind())
+					}
+					r := c.St.BVC(64, val(dtypeUniverse[len(dtypeUniverse)-1]))
+					for i := len(dtypeUniverse) - 2; i >= 0; i-- {
+						r = c.St.Ite(c.St.Eq(x.Sym, c.St.BVC(8, uint64(i))), c.St.BVC(64, val(dtypeUniverse[i])), r)
+					}
+					return r
+				}, true
+			}
 		}
 	}
 	return nil, false
